@@ -28,7 +28,7 @@ var noopPkgPrefixes = []string{
 var skipInitPkgs = map[string]bool{
 	"runtime": true, "os": true, "syscall": true, "net": true, "net/http": true, "crypto/tls": true,
 	"internal/poll": true, "internal/godebug": true, "reflect": true, "testing": true, "flag": true,
-	"internal/cpu": true, "log": true, "fmt": true, "sync": true,
+	"internal/cpu": true, "log": true, "sync": true,
 	"github.com/sirupsen/logrus": true, "encoding/json": true, "math/rand": true, "crypto/rand": true,
 }
 
